@@ -328,6 +328,317 @@ theorem tally_order_independent (cl₁ cl₂ : List (Nat × Nat)) (hp : cl₁.Pe
     unfold missed
     rw [hh i]
 
+/-! ### the pieces put together: what the end-blocker takes from the tally -/
+
+theorem fillRec_congr (a₁ a₂ : List (Nft × Str)) (h : ∀ n, alGet a₁ n = alGet a₂ n) (u : Nat) (r : Rec) : fillRec a₁ u r = fillRec a₂ u r := by
+  unfold fillRec; rw [h r.nft]
+
+theorem missed_congr (cl : List (Nat × Nat)) (bs : List Ballot) (a₁ a₂ : List (Nft × Str)) (h : ∀ n, alGet a₁ n = alGet a₂ n) (i : Nat) :
+    missed cl bs a₁ i = missed cl bs a₂ i := by
+  unfold missed
+  congr 2
+  funext b
+  rw [h b.nft]
+
+theorem rewardDenom_order_independent (w₁ w₂ : List (Nat × Nat)) (hp : w₁.Perm w₂) (vals : List Val) (W : Nat) (rr : RewardRes) (d : Str) :
+    rewardDenom w₁ vals W rr d = rewardDenom w₂ vals W rr d := by
+  unfold rewardDenom
+  simp only
+  split
+  · rfl
+  · have e : w₁.foldl (rewardOne w₁ vals W d (rr.bank .pool d)) (rr, 0) = w₂.foldl (rewardOne w₂ vals W d (rr.bank .pool d)) (rr, 0) := by
+      have : rewardOne w₁ vals W d (rr.bank .pool d) = rewardOne w₂ vals W d (rr.bank .pool d) := rfl
+      rw [this]
+      exact reward_allocation_order_independent w₂ vals W d (rr.bank .pool d) w₁ w₂ hp (rr, 0)
+    rw [e]
+
+/-- **the rewards of a round are the same state change for every order of the claim map and every order in which the set of validators
+charged a miss was collected**: the winners are the same set, their weight sum is the same, and the whole result - every validator's
+allocation, the community pool, the pool and distribution balances - is equal -/
+theorem reward_round_order_independent (s : State) (cl₁ cl₂ : List (Nat × Nat)) (hp : cl₁.Perm cl₂) (m₁ m₂ : List Nat)
+    (hm : ∀ i, m₁.contains i = m₂.contains i) : rewardWinners s cl₁ m₁ = rewardWinners s cl₂ m₂ := by
+  unfold rewardWinners
+  have hf : (fun c : Nat × Nat => !m₁.contains c.1) = (fun c => !m₂.contains c.1) := by funext c; rw [hm c.1]
+  have hw : (cl₁.filter (fun c => !m₁.contains c.1)).Perm (cl₂.filter (fun c => !m₂.contains c.1)) := by
+    rw [hf]; exact hp.filter _
+  simp only
+  rw [reward_weight_sum_order_independent _ _ hw]
+  split
+  · rfl
+  · have : rewardDenom (cl₁.filter (fun c => !m₁.contains c.1)) s.vals (totalPower (cl₂.filter (fun c => !m₂.contains c.1))) =
+        rewardDenom (cl₂.filter (fun c => !m₂.contains c.1)) s.vals (totalPower (cl₂.filter (fun c => !m₂.contains c.1))) := by
+      funext rr d
+      exact rewardDenom_order_independent _ _ hw s.vals _ rr d
+    rw [this]
+
+/-- **what the end-blocker takes from the tally is independent of every iteration order involved**: for two walks of the claim map
+(`cl₁`, `cl₂`) and of the grouped votes (`srcs₁`, `srcs₂`), (1) the recipients written into any record are the same, (2) the same
+validators are charged a miss, and (3) with the charged validators collected in either order, the reward step is the same state change.
+Together with `miss_count_order_independent` (the counters) this covers every effect of a tally height except the order of entries in
+the model's counter list, which the chain keeps in a keyed store. -/
+theorem tally_effects_order_independent (s : State) (cl₁ cl₂ : List (Nat × Nat)) (hp : cl₁.Perm cl₂) (hn : (cl₁.map (·.1)).Nodup)
+    (bs : List Ballot) (thr : Nat) (srcs₁ srcs₂ : List Nft) (hs : srcs₁.Perm srcs₂) :
+    (∀ u r, fillRec (srcs₁.filterMap (acceptedEntry cl₁ bs thr)) u r = fillRec (srcs₂.filterMap (acceptedEntry cl₂ bs thr)) u r) ∧
+    (∀ i, missed cl₁ bs (srcs₁.filterMap (acceptedEntry cl₁ bs thr)) i = missed cl₂ bs (srcs₂.filterMap (acceptedEntry cl₂ bs thr)) i) ∧
+    rewardWinners s cl₁ ((cl₁.map (·.1)).filter (missed cl₁ bs (srcs₁.filterMap (acceptedEntry cl₁ bs thr)))) =
+      rewardWinners s cl₂ ((cl₂.map (·.1)).filter (missed cl₂ bs (srcs₂.filterMap (acceptedEntry cl₂ bs thr)))) := by
+  obtain ⟨hacc, hmiss⟩ := tally_order_independent cl₁ cl₂ hp hn bs thr srcs₁ srcs₂ hs
+  have hm : ∀ i, missed cl₁ bs (srcs₁.filterMap (acceptedEntry cl₁ bs thr)) i = missed cl₂ bs (srcs₂.filterMap (acceptedEntry cl₂ bs thr)) i := by
+    intro i
+    rw [hmiss _ i]
+    exact missed_congr cl₂ bs _ _ hacc i
+  refine ⟨fun u r => fillRec_congr _ _ hacc u r, hm, ?_⟩
+  apply reward_round_order_independent s cl₁ cl₂ hp
+  intro i
+  have hmem : ∀ (cl : List (Nat × Nat)) (p : Nat → Bool), ((cl.map (·.1)).filter p).contains i = (decide (i ∈ cl.map (·.1)) && p i) := by
+    intro cl p
+    by_cases h1 : i ∈ cl.map (·.1)
+    · by_cases h2 : p i = true
+      · simp [List.contains_iff_mem, List.mem_filter, h1, h2]
+      · simp [List.contains_iff_mem, List.mem_filter, h1, h2]
+    · simp [List.contains_iff_mem, List.mem_filter, h1]
+  rw [hmem, hmem, hm i]
+  have : (i ∈ cl₁.map (·.1)) ↔ (i ∈ cl₂.map (·.1)) := (hp.map _).mem_iff
+  simp only [this]
+
+
+/-! ### site 7: `SlashValidatorsAndResetMissCount` walks the miss counters -/
+
+/-- what closing a window does to one validator: slash and jail it if it is bonded and not jailed -/
+def punish (s : State) (v : Val) : Val :=
+  if v.bonded && !v.jailed then slashVal s.powerReduction s.constantPower s.os.params.slashFraction v else v
+
+/-- one step of `SlashValidatorsAndResetMissCount` -/
+def slashStep (s : State) (vals : List Val) (p : String × Nat) : List Val :=
+  if p.2 > s.os.params.maxMiss then
+    match decodeVal p.1 with
+    | some i => vals.modify i (punish s)
+    | none => vals
+  else vals
+
+theorem slashAll_eq (s : State) (miss : List (String × Nat)) : slashAll s miss = miss.foldl (slashStep s) s.vals := by
+  unfold slashAll
+  congr 1
+  funext vals p
+  unfold slashStep
+  split
+  · cases hd : decodeVal p.1 with
+    | none => rfl
+    | some i =>
+      simp only
+      apply List.ext_getElem?
+      intro k
+      rw [List.getElem?_modify]
+      unfold getVal
+      cases hv : vals[i]? with
+      | none =>
+        simp only
+        by_cases e : i = k
+        · subst e; simp [hv]
+        · simp [e]
+      | some v =>
+        simp only
+        unfold punish
+        by_cases ha : (v.bonded && !v.jailed) = true
+        · simp only [ha, if_true]
+          rw [List.getElem?_set]
+          by_cases e : i = k
+          · subst e
+            have hl : i < vals.length := by
+              rcases Nat.lt_or_ge i vals.length with h | h
+              · exact h
+              · rw [List.getElem?_eq_none h] at hv; cases hv
+            have hvi : vals[i] = v := by
+              have := List.getElem?_eq_getElem hl
+              rw [this] at hv; exact Option.some.inj hv
+            simp only [Bool.and_eq_true, Bool.not_eq_true'] at ha
+            simp [hl, hvi, ha]
+          · simp [e]
+        · simp only [ha, Bool.false_eq_true, if_false]
+          by_cases e : i = k
+          · subst e
+            simp only [hv, Option.map_eq_map, Option.map_some, if_true]
+            congr 1
+            simp only [Bool.and_eq_true, Bool.not_eq_true', not_and, Bool.not_eq_false] at ha
+            split
+            · rename_i hc
+              simp only [Bool.and_eq_true, Bool.not_eq_true'] at hc
+              have := ha hc.1
+              rw [hc.2] at this; cases this
+            · rfl
+          · simp [e]
+  · rfl
+
+theorem modify_comm (l : List Val) (i j : Nat) (f : Val → Val) (h : i ≠ j) : (l.modify i f).modify j f = (l.modify j f).modify i f := by
+  apply List.ext_getElem?
+  intro k
+  simp only [List.getElem?_modify]
+  cases l[k]? with
+  | none => rfl
+  | some v =>
+    simp only [Option.map_eq_map, Option.map_some]
+    by_cases e1 : i = k <;> by_cases e2 : j = k <;> simp [e1, e2]
+
+theorem slashStep_comm (s : State) (vals : List Val) (p q : String × Nat) (h : decodeVal p.1 ≠ decodeVal q.1) :
+    slashStep s (slashStep s vals p) q = slashStep s (slashStep s vals q) p := by
+  unfold slashStep
+  by_cases hp : p.2 > s.os.params.maxMiss <;> by_cases hq : q.2 > s.os.params.maxMiss <;> simp only [hp, hq, if_true, if_false]
+  cases hi : decodeVal p.1 with
+  | none => simp only
+  | some i =>
+    cases hj : decodeVal q.1 with
+    | none => simp only
+    | some j =>
+      simp only
+      exact modify_comm vals i j _ (fun e => h (by rw [hi, hj, e]))
+
+theorem distinct_of_pairwise : ∀ (l : List (String × Nat)), l.Pairwise (fun p q => decodeVal p.1 ≠ decodeVal q.1) →
+    ∀ a ∈ l, ∀ b ∈ l, a ≠ b → decodeVal a.1 ≠ decodeVal b.1
+  | [], _, a, ha, _, _, _ => by cases ha
+  | c :: r, hd, a, ha, b, hb, hab => by
+    rw [List.pairwise_cons] at hd
+    rcases List.mem_cons.mp ha with h1 | h1 <;> rcases List.mem_cons.mp hb with h2 | h2
+    · exact absurd (h1.trans h2.symm) hab
+    · rw [h1]; exact hd.1 b h2
+    · rw [h2]; exact fun e => hd.1 a h1 e.symm
+    · exact distinct_of_pairwise r hd.2 a h1 b h2 hab
+
+/-- **slashing at the close of a window does not depend on the order in which the miss counters are walked**: the validator table
+afterwards is equal, provided no two counters belong to one validator (the tally files every counter under the validator's canonical name) -/
+theorem slash_order_independent (s : State) (m₁ m₂ : List (String × Nat)) (hp : m₁.Perm m₂)
+    (hd : m₁.Pairwise (fun p q => decodeVal p.1 ≠ decodeVal q.1)) : slashAll s m₁ = slashAll s m₂ := by
+  rw [slashAll_eq, slashAll_eq]
+  apply hp.foldl_eq'
+  intro x hx y hy z
+  by_cases e : x = y
+  · subst e; rfl
+  · exact slashStep_comm s z x y (distinct_of_pairwise m₁ hd x hx y hy e)
+
+/-! ### slashing depends on the counters only, not on how the counter list came about -/
+
+theorem punish_idem (s : State) (v : Val) : punish s (punish s v) = punish s v := by
+  unfold punish
+  by_cases h : (v.bonded && !v.jailed) = true
+  · simp only [h, if_true]
+    simp [slashVal]
+  · simp only [h, Bool.false_eq_true, if_false]
+
+/-- validator `i` has a counter above the maximum in `m` -/
+def overMax (s : State) (m : List (String × Nat)) (i : Nat) : Bool :=
+  m.any (fun p => decide (p.2 > s.os.params.maxMiss) && decodeVal p.1 == some i)
+
+/-- the validator table after the slashing loop, entry by entry: punished once if some counter of the validator is above the maximum -/
+theorem slash_pointwise (s : State) : ∀ (m : List (String × Nat)) (vals : List Val) (i : Nat),
+    (m.foldl (slashStep s) vals)[i]? = (if overMax s m i then punish s <$> vals[i]? else vals[i]?) := by
+  intro m vals i
+  induction m generalizing vals with
+  | nil => simp [overMax]
+  | cons p r ih =>
+    simp only [List.foldl_cons]
+    rw [ih]
+    unfold slashStep overMax
+    simp only [List.any_cons]
+    by_cases hp : p.2 > s.os.params.maxMiss
+    · simp only [hp, if_true, decide_true, Bool.true_and]
+      cases hd : decodeVal p.1 with
+      | none => simp only [Bool.false_or, Option.map_eq_map]; rfl
+      | some j =>
+        simp only
+        rw [List.getElem?_modify]
+        by_cases e : j = i
+        · subst e
+          simp only [beq_self_eq_true, Bool.true_or, if_true]
+          cases vals[j]? with
+          | none => simp
+          | some v =>
+            simp only [Option.map_eq_map, Option.map_some, if_true]
+            split
+            · simp [punish_idem]
+            · rfl
+        · have : (some j == some i) = false := by simp [e]
+          simp only [this, Bool.false_or, e, if_false]
+          cases vals[i]? <;> simp
+    · have hdec : decide (p.2 > s.os.params.maxMiss) = false := by simp [hp]
+      simp only [hp, if_false, decide_false, Bool.false_and, Bool.false_or]
+
+/-- **the slashing of a window is determined by the counters as a map**: two counter lists that hold the same count under every key,
+each key at most once, produce the same validator table - whatever order their entries are in -/
+theorem slash_depends_on_counters_only (s : State) (m₁ m₂ : List (String × Nat))
+    (h1 : (m₁.map (·.1)).Nodup) (h2 : (m₂.map (·.1)).Nodup) (h : ∀ k, alGet m₁ k = alGet m₂ k) : slashAll s m₁ = slashAll s m₂ := by
+  rw [slashAll_eq, slashAll_eq]
+  apply List.ext_getElem?
+  intro i
+  rw [slash_pointwise s m₁ s.vals i, slash_pointwise s m₂ s.vals i]
+  have : overMax s m₁ i = overMax s m₂ i := by
+    have mem : ∀ (m : List (String × Nat)), (m.map (·.1)).Nodup → ∀ k c, (k, c) ∈ m ↔ alGet m k = some c := by
+      intro m hm k c
+      induction m with
+      | nil => simp [alGet]
+      | cons x r ih =>
+        obtain ⟨k', c'⟩ := x
+        simp only [List.map_cons, List.nodup_cons] at hm
+        simp only [List.mem_cons, alGet]
+        by_cases e : k' = k
+        · subst e
+          simp only [if_true, Prod.mk.injEq, true_and, Option.some.injEq]
+          constructor
+          · rintro (h | h)
+            · exact h.symm
+            · exact absurd (List.mem_map_of_mem (f := (·.1)) h) hm.1
+          · intro h; left; exact h.symm
+        · simp only [e, if_false, Prod.mk.injEq]
+          rw [← ih hm.2]
+          constructor
+          · rintro (h | h)
+            · exact absurd h.1.symm e
+            · exact h
+          · intro h; right; exact h
+    unfold overMax
+    rw [Bool.eq_iff_iff]
+    simp only [List.any_eq_true]
+    constructor
+    · rintro ⟨p, hp, hc⟩
+      exact ⟨p, (mem m₂ h2 p.1 p.2).mpr (by rw [← h]; exact (mem m₁ h1 p.1 p.2).mp hp), hc⟩
+    · rintro ⟨p, hp, hc⟩
+      exact ⟨p, (mem m₁ h1 p.1 p.2).mpr (by rw [h]; exact (mem m₂ h2 p.1 p.2).mp hp), hc⟩
+  rw [this]
+
+theorem alSet_keys {β} (l : List (String × β)) (k : String) (v : β) :
+    (alSet l k v).map (·.1) = if k ∈ l.map (·.1) then l.map (·.1) else l.map (·.1) ++ [k] := by
+  induction l with
+  | nil => simp [alSet]
+  | cons x r ih =>
+    obtain ⟨k', v'⟩ := x
+    unfold alSet
+    by_cases e : k' = k
+    · subst e; simp
+    · simp only [e, if_false, List.map_cons, ih, List.mem_cons]
+      have : ¬ k = k' := fun h => e h.symm
+      by_cases hm : k ∈ r.map (·.1)
+      · simp [hm]
+      · simp [hm, this]
+
+theorem alSet_keys_nodup {β} (l : List (String × β)) (k : String) (v : β) (h : (l.map (·.1)).Nodup) : ((alSet l k v).map (·.1)).Nodup := by
+  rw [alSet_keys]
+  split
+  · exact h
+  · rename_i hk
+    rw [List.nodup_append]
+    exact ⟨h, by simp, by intro a ha b hb; simp at hb; subst hb; intro e; subst e; exact hk ha⟩
+
+theorem bump_keys_nodup (l : List Nat) : ∀ (m : List (String × Nat)), (m.map (·.1)).Nodup → ((l.foldl bumpMiss m).map (·.1)).Nodup := by
+  induction l with
+  | nil => intro m h; exact h
+  | cons i r ih => intro m h; exact ih _ (alSet_keys_nodup m _ _ h)
+
+/-- **closing a slash window does not depend on the order in which the validators charged a miss were collected**: the counters are the
+same map (`miss_count_order_independent`), every key occurs once, hence the same validators are slashed and jailed and the validator
+table afterwards is equal -/
+theorem window_close_order_independent (s : State) (ms₁ ms₂ : List Nat) (hp : ms₁.Perm ms₂) (m : List (String × Nat))
+    (hm : (m.map (·.1)).Nodup) : slashAll s (ms₁.foldl bumpMiss m) = slashAll s (ms₂.foldl bumpMiss m) :=
+  slash_depends_on_counters_only s _ _ (bump_keys_nodup ms₁ m hm) (bump_keys_nodup ms₂ m hm)
+    (fun k => miss_count_order_independent ms₁ ms₂ hp m k)
+
 /-! ### the published NFT list is a function of the store -/
 
 /-- the list of NFTs to verify is computed from the ordered store walk alone (no map): two states with the same settlement store
